@@ -259,3 +259,23 @@ func (p *PrivParsed) PublicOfPriv() ([]byte, error) {
 	}
 	return nil, errors.New("refsshkeys: key type not modelled")
 }
+
+// PrivSectionInfo reads the unencrypted part of a container: cipher, kdf and
+// the length of the (possibly encrypted) private section.
+func PrivSectionInfo(der []byte) (cipherName, kdf string, sectionLen int, err error) {
+	if len(der) < len(PrivMagic) || string(der[:len(PrivMagic)]) != PrivMagic {
+		return "", "", 0, errors.New("refsshkeys: bad magic")
+	}
+	r := &R{B: der[len(PrivMagic):]}
+	cipherName, kdf = r.S(), r.S()
+	r.Str()
+	n := r.U32()
+	for i := uint32(0); i < n && r.Err == nil; i++ {
+		r.Str()
+	}
+	sec := r.Str()
+	if r.Err != nil {
+		return "", "", 0, r.Err
+	}
+	return cipherName, kdf, len(sec), nil
+}
